@@ -179,9 +179,11 @@ def check_scorer(acc, name, n, p, which, lattice=False):
             "wide": (np.array([g + [g[-1] + 1]]), "ValueError"),
             "narrow": (np.array([g[:-1]]), "ValueError"),
             "3d": (np.array([[g]]), "ValueError"),
-            "1d": (np.array(g), "value"),
-            "list": (g, "value"),
-            "list-of-lists": ([g, g], "value"),
+            # a 1-D vector of k entries / a plain list: the statement speaks of arrays with columns; the pinned tree reads them
+            # as one row (resp. converts the list).  Either reading is accepted: ValueError, or the value(s) in the right shape
+            "1d": (np.array(g), "either"),
+            "list": (g, "either"),
+            "list-of-lists": ([g, g], "either"),
             "empty": (np.zeros((0, k), dtype=np.int64), "value"),
             "1d-wrong": (np.array(g[:-1]), "ValueError"),
             "object-float-strings": (np.array([[str(x) for x in g]]), "ValueError"),
@@ -199,7 +201,9 @@ def check_scorer(acc, name, n, p, which, lattice=False):
             case = dict(base, malformed=mname)
             if want == "ValueError" and st != "ValueError":
                 acc.violation("malformed-accepted", case, f"{name}: malformed cuts '{mname}' -> {st}", dict(key, malformed=mname))
-            elif want == "value":
+            elif want == "either" and st == "ValueError":
+                acc.count("lenient_input_form_rejected")
+            elif want in ("value", "either"):
                 if st != "value":
                     acc.violation("wellformed-rejected", case, f"{name}: well-formed cuts '{mname}' -> {st} {out}", dict(key, malformed=mname))
                 else:
